@@ -1197,4 +1197,276 @@ VP_RANDOM (linealgo_d, 400000, 4000000, C15_LA_RULE) { linealgo_case<double> (c,
 VP_LABELS (linealgo_d, "p_on_axis", "p_near_axis", "p_generic", "quarter_turns", "angle_up_to_50", "equidistant_vertices")
 VP_REQUIRE_LABELS (linealgo_d, "p_on_axis", "p_near_axis", "p_generic", "quarter_turns", "angle_up_to_50", "equidistant_vertices")
 
+// generators of sections 7 and 8: one draw per statement
+template <class T> static inline Vec3<T> seq_pt (vp::Src& s)
+{
+    Vec3<T> v;
+    for (int i = 0; i < 3; ++i)
+        v[i] = gen::nice<T> (s);
+    return v;
+}
+static inline Q3 seq_dir (vp::Src& s) // unit vector
+{
+    double x = s.uniform (-1, 1);
+    double y = s.uniform (-1, 1);
+    double z = s.uniform (-1, 1);
+    if (x * x + y * y + z * z < 0.01) x = 1;
+    return unit (Q3 (x, y, z));
+}
+
+// =====================================================================================
+// 7. closestVertex(v0,v1,v2,line) with the line's origin far from the triangle (a picking ray from a distant eye)
+//
+//    Conditioning: the distances are formed from v - closestPointTo(v) = v - (pos + dir*t); dir*t has the size of
+//    |v - pos| and is rounded to T, so each distance vector carries an absolute error of E ~ eps * |v - pos| (the
+//    component along dir - rounding of t, |dir| != 1 - enters the same way).  Whatever E, the returned vertex k
+//    satisfies dist_k <= dist_min + 2E; the answer is only *forced* when the runner-up is farther than that.
+//    Nothing is demanded about differences below 2E.
+// =====================================================================================
+enum
+{
+    CVF_NEAR_ORIGIN,
+    CVF_FAR_ORIGIN,
+    CVF_BEYOND_SQRT_EPS,
+    CVF_FORCED,
+    CVF_DIR_AWAY
+};
+template <class T> static void cvfar_case (vp::Ctx& c, const char* tn)
+{
+    typedef Vec3<T> V;
+    vp::Src&        s   = c.s;
+    const quad      eps = EPS<T> ();
+    V               v[3];
+    int             ts = (int) s.range (-3, 3); // triangle size 2^-3 .. 2^3 x "nice"
+    for (int k = 0; k < 3; ++k)
+        v[k] = seq_pt<T> (s) * std::ldexp ((T) 1, ts);
+    Q3     cen  = (q3 (v[0]) + q3 (v[1]) + q3 (v[2])) / (quad) 3;
+    Q3     od   = seq_dir (s);
+    double ol   = s.uniform (0, 3);
+    Q3     tgt  = cen + od * ((quad) ol * (quad) std::ldexp (1.0, ts)); // a point next to the triangle the ray passes through
+    Q3     u    = seq_dir (s);
+    double emax = sizeof (T) == 8 ? 14.0 : 6.0;
+    double e    = s.uniform (0, emax);
+    quad   dist = (quad) std::pow (10.0, e);
+    V      eye  = rnd<T> (tgt + u * dist);
+    V      tg   = rnd<T> (tgt);
+    if (eye == tg) eye.x += 1;
+    Line3<T> l (eye, tg);
+    if (!(l.dir.length2 () > 0)) l.dir = V (1, 0, 0);
+    if (s.coin ())
+    {
+        l.dir = -l.dir; // same line, pointing away from the triangle
+        c.label (CVF_DIR_AWAY);
+    }
+    VP_NOTE (c, tn << " triangle " << vs (v[0]) << " " << vs (v[1]) << " " << vs (v[2]) << " line " << vs (l.pos) << "+t" << vs (l.dir) << " (origin ~" << (double) dist << " away)");
+    bool far = dist * dist * eps > 1; // |w|/dist ratio beyond 1/sqrt(eps) for unit distances
+    c.label (dist >= 100 ? CVF_FAR_ORIGIN : CVF_NEAR_ORIGIN);
+    if (far) c.label (CVF_BEYOND_SQRT_EPS);
+    V    cv = closestVertex (v[0], v[1], v[2], l);
+    Q3   P = q3 (l.pos), Du = unit (q3 (l.dir));
+    int  which = -1;
+    quad dk[3], dmin = (quad) 1e300, wmax = 0;
+    for (int k = 0; k < 3; ++k)
+    {
+        Q3 a  = q3 (v[k]) - P;
+        dk[k] = len (cross (a, Du));
+        wmax  = qmax (wmax, len (a));
+        dmin  = qmin (dmin, dk[k]);
+    }
+    for (int k = 0; k < 3; ++k)
+        if (same3 (cv, v[k]) && (which < 0 || dk[k] < dk[which])) which = k;
+    VP_REQUIRE (c, which >= 0, "closestVertex-line/not-a-vertex", tn << " closestVertex(line) returned " << vs (cv) << " which is none of the vertices");
+    quad E = eps * (wmax + len (P));
+    // is the answer forced?  (runner-up beyond the bound)
+    int nclose = 0;
+    for (int k = 0; k < 3; ++k)
+        if (dk[k] <= (dmin + 4 * E) * (1 + 8 * eps)) ++nclose;
+    if (nclose == 1)
+    {
+        c.label (CVF_FORCED);
+        c.nt (far);
+    }
+    QG_MEAS ("closestVertex-line-far/excess", (dk[which] - dmin) / (E + (quad) 1e-300));
+    // analysis: 2 x (rounding of dir*t + rounding of t and |dir| != 1 along dir) ~ 3 E; measured worst excess on the
+    // unchanged tree (3e6 cases per type): 0.48 E (float), 0.17 E (double)
+    VP_REQUIRE (c, dk[which] <= (dmin + 4 * E) * (1 + 8 * eps), "closestVertex-line/not-closest-far-origin", tn << " closestVertex(line) = vertex " << which << " at distance " << qstr (dk[which]) << " from the line, but the vertex distances are " << qstr (dk[0]) << " " << qstr (dk[1]) << " " << qstr (dk[2]) << " (resolvable to " << qstr (4 * E) << ")");
+    // the two Line3 members that answer is built from, at the same far origin (the line_point_* sub-checks keep pos near 0)
+    for (int k = 0; k < 3; ++k)
+    {
+        Q3   a  = q3 (v[k]) - P;
+        Q3   CX = P + Du * dot (a, Du);
+        T    dl = l.distanceTo (v[k]);
+        V    cp = l.closestPointTo (v[k]);
+        QG_CHK (c, "line-distanceTo-point/far-origin", qabs ((quad) dl - dk[k]), E, 6, tn << " distanceTo(" << vs (v[k]) << ") = " << dl << " exact " << qstr (dk[k])); // measured worst 0.99 units
+        for (int i = 0; i < 3; ++i)
+            QG_CHK (c, "line-closestPointTo-point/far-origin", qabs ((quad) cp[i] - CX[i]), E, 12, tn << " closestPointTo(" << vs (v[k]) << ")[" << i << "] = " << cp[i] << " exact " << qstr (CX[i])); // measured worst 2.2 units (t rounded to eps |v-pos|, |dir|^2 - 1 ~ eps)
+    }
+}
+#define C15_CVF_RULE "triangles of size 2^-3..2^3 near the origin; a line from an eye 1..1e6 (float) / 1..1e14 (double) away through a point within 3 sizes of the centroid, direction towards or away from the triangle; oracle = quad point-line distances on the stored pos/dir; bound: returned vertex within 4 eps (|v-pos|+|pos|) of the minimum distance; Line3::distanceTo / closestPointTo of the three vertices at the same far origin, same unit; non-trivial = origin beyond 1/sqrt(eps) and the answer forced (runner-up beyond the bound)"
+VP_RANDOM (cvfar_f, 300000, 3000000, C15_CVF_RULE) { cvfar_case<float> (c, "float"); }
+VP_LABELS (cvfar_f, "origin_within_100", "origin_beyond_100", "origin_beyond_1/sqrt(eps)", "answer_forced", "direction_away")
+VP_REQUIRE_LABELS (cvfar_f, "origin_within_100", "origin_beyond_100", "origin_beyond_1/sqrt(eps)", "answer_forced", "direction_away")
+VP_RANDOM (cvfar_d, 300000, 3000000, C15_CVF_RULE) { cvfar_case<double> (c, "double"); }
+VP_LABELS (cvfar_d, "origin_within_100", "origin_beyond_100", "origin_beyond_1/sqrt(eps)", "answer_forced", "direction_away")
+VP_REQUIRE_LABELS (cvfar_d, "origin_within_100", "origin_beyond_100", "origin_beyond_1/sqrt(eps)", "answer_forced", "direction_away")
+
+// =====================================================================================
+// 8. Plane3 * Matrix44 for projective matrices (last column not (0,0,0,1)): Vec3 * Matrix44 divides by the
+//    homogeneous w, a non-singular projective matrix maps planes to planes, and plane*M must contain the images
+//    p*M of the points of the plane.  The generator keeps w = p.c + m33 within [0.55, 1.45] x m33 (one sign) for
+//    every point it uses (all within 12 of the plane's point nearest the origin): |c| = kappa |m33| / (|O| + 12),
+//    kappa <= 0.45.  Sides: det(M) > 0 makes the map orientation preserving wherever w keeps one sign.
+//    Conditioning: the Jacobian of p -> p*M at O, J = (A - c (O*M)^T) / w, plays the part of the linear block A.
+// =====================================================================================
+enum
+{
+    PP_AFFINE_BASE_TRANS,
+    PP_AFFINE_BASE_RIGID,
+    PP_AFFINE_BASE_GENERAL,
+    PP_SCALED,
+    PP_SINGLE_ENTRY,
+    PP_M33_NOT_ONE,
+    PP_W_NEGATIVE,
+    PP_STRONG,
+    PP_SIDE_CHECKED,
+    PP_DET_NEGATIVE,
+    PP_ILLCOND
+};
+#define C15_PP_LABELS "base_identity_or_translation", "base_rigid", "base_general_affine", "base_rows_scaled", "single_perspective_entry", "m33_not_1", "w_negative", "w_varies_by_more_than_25%", "side_preserved_checked", "det_negative(no side claim)", "jacobian_ill_conditioned(no side claim)"
+
+template <class T> static void plane_proj_case (vp::Ctx& c, const char* tn)
+{
+    typedef Vec3<T> V;
+    vp::Src&        s   = c.s;
+    const quad      eps = EPS<T> ();
+    // ---- plane
+    V nn;
+    if (s.chance (48))
+    {
+        int k = (int) s.below (3);
+        nn    = V (0, 0, 0);
+        nn[k] = s.coin () ? (T) 1 : (T) -1;
+    }
+    else
+    {
+        Q3  nd = seq_dir (s);
+        int ne = (int) s.range (-3, 3);
+        nn     = rnd<T> (nd * (quad) std::ldexp (1.0, ne));
+    }
+    T         dpl = gen::nice<T> (s);
+    Plane3<T> P (nn, dpl);
+    Q3        N = q3 (P.normal);
+    quad      d = (quad) P.distance;
+    Q3        Nu = unit (N);
+    Q3        O  = Nu * (d / len (N)); // point of the plane nearest the origin
+    // ---- matrix: affine base, then a perspective column
+    static const int BASE[4] = { MK_IDENT, MK_TRANS, MK_RIGID, MK_GENERAL };
+    int              mk      = BASE[s.below (4)];
+    bool             mirror  = s.chance (48);
+    Matrix44<T>      M       = gen_affine<T> (s, mk, mirror);
+    c.label (mk <= MK_TRANS ? PP_AFFINE_BASE_TRANS : mk == MK_RIGID ? PP_AFFINE_BASE_RIGID : PP_AFFINE_BASE_GENERAL);
+    int sk = (int) s.below (3);
+    if (sk)
+    {
+        int e0 = (int) s.range (-3, 3);
+        for (int i = 0; i < 3; ++i)
+        {
+            int e = e0;
+            if (sk == 2) e = (int) s.range (-2, 2);
+            for (int j = 0; j < 3; ++j)
+                M[i][j] = std::ldexp (M[i][j], e);
+        }
+        c.label (PP_SCALED);
+    }
+    Q3     cd = seq_dir (s);
+    double kw = s.uniform (0.02, 0.45);
+    T      m33 = 1;
+    switch (s.below (4))
+    {
+        case 2:
+        {
+            int e = (int) s.range (-3, 3);
+            m33   = std::ldexp ((T) 1, e);
+            break;
+        }
+        case 3: m33 = -1; break;
+        default: break;
+    }
+    if (s.chance (48))
+    {
+        // a single non-zero perspective entry
+        int k = (int) s.below (3);
+        cd    = Q3 (0, 0, 0);
+        cd[k] = s.coin () ? 1 : -1;
+        c.label (PP_SINGLE_ENTRY);
+    }
+    const quad RAD = 12;
+    quad       cs  = (quad) kw * qabs ((quad) m33) / (len (O) + RAD);
+    for (int i = 0; i < 3; ++i)
+        M[i][3] = (T) (cd[i] * cs);
+    M[3][3] = m33;
+    if (m33 != 1) c.label (PP_M33_NOT_ONE);
+    if (m33 < 0) c.label (PP_W_NEGATIVE);
+    if (kw > 0.25) c.label (PP_STRONG);
+    c.nt (true);
+    VP_NOTE (c, tn << " plane normal=" << vs (P.normal) << " distance=" << P.distance << " M=" << mstr (M, 4));
+    Q3   C ((quad) M[0][3], (quad) M[1][3], (quad) M[2][3]);
+    quad m = (quad) M[3][3];
+    auto wof  = [&] (const Q3& X) -> quad { return dot (X, C) + m; };
+    auto proj = [&] (const Q3& X) -> Q3 { return xform (X, M) / wof (X); };
+    // ---- plane * M
+    Plane3<T> PM = P * M;
+    Q3        NM = q3 (PM.normal);
+    quad      dM = (quad) PM.distance;
+    VP_REQUIRE (c, fin3 (PM.normal) && std::isfinite (PM.distance), "plane-times-projective/nonfinite", tn << " plane*M = " << vs (PM.normal) << "," << PM.distance);
+    QG_CHK (c, "plane-times-projective/unit-normal", qabs (len (NM) - 1), eps, 6, tn << " |(plane*M).normal| = " << qstr (len (NM))); // measured worst 1.3 units
+    // Jacobian at O and the magnitude of the terms that form an image point next to O
+    QM<3> A  = linpart (M), J, Ji;
+    Q3    OM = proj (O);
+    quad  wO = wof (O);
+    for (int i = 0; i < 3; ++i)
+        for (int j = 0; j < 3; ++j)
+            J.a[i][j] = (A.a[i][j] - C[i] * OM[j]) / wO;
+    Q3   tr ((quad) M[3][0], (quad) M[3][1], (quad) M[3][2]);
+    quad wmin = qabs (m) * (quad) 0.55;
+    quad pe   = ((norm_inf (A) + (qabs (C.x) + qabs (C.y) + qabs (C.z)) * len (OM)) * (len (O) + 2) + len (tr) + qabs (m) * len (OM)) / wmin;
+    bool jok  = inverse (J, Ji);
+    quad nJi  = jok ? norm_inf (Ji) : (quad) 1e300;
+    quad kapJ = norm_inf (J) * nJi;
+    quad dt   = det (QM<4>::from (M));
+    bool side_ok = dt > 0 && eps * kapJ * kapJ <= (quad) (1.0 / 1024);
+    if (!(dt > 0))
+        c.label (PP_DET_NEGATIVE);
+    else if (!side_ok)
+        c.label (PP_ILLCOND);
+    Q3 u1 = perp_to (N, 0), u2 = unit (cross (N, u1));
+    for (int k = 0; k < 3; ++k)
+    {
+        double ad = s.uniform (-4, 4);
+        double bd = s.uniform (-4, 4);
+        Q3     X  = O + u1 * (quad) ad + u2 * (quad) bd;
+        Q3     XM = proj (X);
+        // error of the image points (pe) + error of the normal (pe x |J^-1|) acting over the distance from O*M
+        quad unit_ = eps * pe * (1 + len (XM - OM) * nJi);
+        QG_CHK (c, "plane-times-projective/contains", qabs (dot (NM, XM) - dM), unit_, 4, tn << " point " << qs (X) << " of the plane maps to " << qs (XM) << " (w = " << qstr (wof (X)) << "), which is at distance " << qstr (dot (NM, XM) - dM) << " from plane*M = " << vs (PM.normal) << "," << PM.distance); // measured worst 0.54 units (3e6 cases per type)
+        double hd = s.uniform (0.1, 4);
+        bool   up = s.coin ();
+        quad   h  = up ? (quad) hd : -(quad) hd;
+        Q3     Y  = X + Nu * h;
+        quad   sM = dot (NM, proj (Y)) - dM;
+        if (side_ok)
+        {
+            c.label (PP_SIDE_CHECKED);
+            VP_REQUIRE (c, (sM > 0) == (h > 0) && sM != 0, "plane-times-projective/side", tn << " point at signed distance " << (double) h << " from the plane maps to signed distance " << qstr (sM) << " from plane*M (det(M) = " << qstr (dt) << " > 0, w = " << qstr (wof (Y)) << ")");
+        }
+    }
+}
+#define C15_PP_RULE "planes normal+distance (random or axis-aligned normals of length 2^-3..2^3, distance 'nice'); matrices: identity/translation/rigid/general affine base (1/5 mirrored), rows scaled by 2^k, then last column (c, m33) with m33 in {1, 2^-3..2^3, -1} and |c| = kappa |m33| / (|O|+12), kappa 0.02..0.45, random direction or a single entry, so that w stays within [0.55,1.45] m33 on every point used; probes +-4 units along the plane and 0.1..4 off it; oracle = quad homogeneous image of the points against the returned plane; all cases non-trivial"
+VP_RANDOM (plane_proj_f, 200000, 3000000, C15_PP_RULE) { plane_proj_case<float> (c, "float"); }
+VP_LABELS (plane_proj_f, C15_PP_LABELS)
+VP_REQUIRE_LABELS (plane_proj_f, "base_identity_or_translation", "base_rigid", "base_general_affine", "base_rows_scaled", "single_perspective_entry", "m33_not_1", "w_negative", "w_varies_by_more_than_25%", "side_preserved_checked", "det_negative(no side claim)")
+VP_RANDOM (plane_proj_d, 200000, 3000000, C15_PP_RULE) { plane_proj_case<double> (c, "double"); }
+VP_LABELS (plane_proj_d, C15_PP_LABELS)
+VP_REQUIRE_LABELS (plane_proj_d, "base_identity_or_translation", "base_rigid", "base_general_affine", "base_rows_scaled", "single_perspective_entry", "m33_not_1", "w_negative", "w_varies_by_more_than_25%", "side_preserved_checked", "det_negative(no side claim)")
+
 VP_MAIN ("C15")
